@@ -30,6 +30,7 @@ func init() {
 			{"C05-R7", "names a reconnecting client retained are recorded for generator-managed types (shared with C03-R5)", c03r5},
 			{"C05-R8", "only an answered first request creates the per-type record", c05r8},
 			{"C05-R9", "the forced EDS push after a delta CDS answer is unconditional (shared with C03)", c05r9},
+			{"C05-R10", "ready always includes caches synced", c05r10},
 		},
 	})
 }
@@ -508,5 +509,37 @@ func c05r9(c *Ctx) {
 	}
 	c.Check("forceEDSPush pushes EDS whenever EDS is watched", pos, !found,
 		"forceEDSPush can return without pushing although the proxy watches EDS: after a delta CDS answer Envoy re-warms the clusters it received and waits for their endpoints; on a reconnect the EDS and CDS requests are pipelined, so a skip that depends on the state of the previous EDS answer (not yet acknowledged, nonce in flight) hits exactly the case the forced push exists for, and the changed clusters stay warming")
+	c.Floor(2)
+}
+
+// C05-R10: "ready" always includes "the caches were synced". Stream / StreamDeltas admit a connection only under
+// IsServerReady(); whatever else that predicate looks at (agentgateway collections), a positive answer is given only after
+// the serverReady flag - set by CachesSynced - was read: every return of IsServerReady that is not the constant false
+// lies on paths that all pass a read of DiscoveryServer.serverReady. A shortcut that answers from the collections alone
+// lets a restarted instance answer a reconnecting proxy from its still-empty snapshot (delta: every retained cluster is
+// removed).
+func c05r10(c *Ctx) {
+	p := c.P
+	fn := p.Func(pkgXds, "DiscoveryServer", "IsServerReady")
+	sr := p.Field(pkgXds, "DiscoveryServer", "serverReady")
+	readsFlag := func(ins ssa.Instruction) bool {
+		fa, ok := ins.(*ssa.FieldAddr)
+		return ok && fieldVar(fa.X.Type(), fa.Field) == sr
+	}
+	n := 0
+	for _, b := range fn.Blocks {
+		r, ok := b.Instrs[len(b.Instrs)-1].(*ssa.Return)
+		if !ok || len(r.Results) != 1 {
+			continue
+		}
+		if k, isC := constBool(retVal(r, 0)); isC && !k {
+			continue
+		}
+		n++
+		hit := pathAvoiding(fn, nil, readsFlag, func(ins ssa.Instruction) bool { return ins == ssa.Instruction(r) })
+		c.Check("IsServerReady answers positively only after reading the caches-synced flag", r.Pos(), hit == nil,
+			"IsServerReady can return a value other than false on a path that never reads serverReady (set by CachesSynced): connections are then admitted before the registries and the config store are synced, and a proxy that reconnects to a just-restarted instance is answered from an empty snapshot - for a delta client every cluster it retained is removed")
+	}
+	c.Check("IsServerReady has a positive answer", fn.Pos(), n >= 1, "no return other than the constant false")
 	c.Floor(2)
 }
